@@ -29,6 +29,10 @@ func init() {
 
 // steps: {op:"conn"} {op:"close"} {op:"req", s:command, k:variant, f:right key}
 // variants: 0 well-formed, 1 wrong-typed body, 2 header only (body withheld), 3 garbage bytes
+// keys that are not the configured key "secret": unrelated, empty, a proper prefix, the key
+// with something appended or prepended, a different case, an embedded NUL
+var wrongKeys = []string{"wrong", "", "secre", "secret2", "Secret", "secret\x00", " secret", "secretsecret", "s"}
+
 func genC24(seed uint64, tier string) *Case {
 	g := NewRng(seed)
 	c := &Case{P: map[string]int64{"auth": int64(g.Intn(3))}}
@@ -42,7 +46,7 @@ func genC24(seed uint64, tier string) *Case {
 		case x < 3 || i == hs:
 			c.Steps = append(c.Steps, Step{Op: "req", S: "handshake", K: g.Pick(0, 0, 0, 1, 4)})
 		case x < 6:
-			c.Steps = append(c.Steps, Step{Op: "req", S: "auth", F: g.Bool(0.4), K: g.Pick(0, 0, 0, 1)})
+			c.Steps = append(c.Steps, Step{Op: "req", S: "auth", F: g.Bool(0.4), K: g.Pick(0, 0, 0, 1), J: g.Intn(len(wrongKeys))})
 		default:
 			c.Steps = append(c.Steps, Step{Op: "req", S: ipcCommands[g.Intn(len(ipcCommands))], K: g.Pick(0, 0, 0, 0, 1, 2, 3)})
 		}
@@ -101,7 +105,7 @@ func execC24(r *Run) {
 		case 0:
 			body = ipcBody(s.S, g)
 			if s.S == "auth" && !s.F {
-				body = map[string]any{"AuthKey": "wrong"}
+				body = map[string]any{"AuthKey": wrongKeys[s.J%len(wrongKeys)]}
 				r.Fault("wrong-auth-key")
 			}
 		case 1:
